@@ -24,6 +24,7 @@ import JumanjiModel.Env.BinPack.ResetLemmas
 import JumanjiModel.Env.BinPack.Covered
 import JumanjiModel.Env.BinPack.SplitGen
 import JumanjiModel.Env.BinPack.GenState
+import JumanjiModel.Env.BinPack.Spec
 open Jm BinPack
 
 namespace Props.C01
@@ -88,6 +89,155 @@ example : BoundsInv ⟨4, 3, 2⟩ ex ∧ stepValid ex 0 0 = true ∧
     validDraw ex 0 0 ⟨[⟨2, 4, 0, 3, 0, 2⟩, ⟨0, 4, 2, 3, 0, 2⟩], [true, true]⟩ := by decide +kernel
 /-- … and that draw is exactly what the transliterated `_update_ems` computes -/
 example : WF ex ∧ updateEms ex 0 0 = ⟨[⟨2, 4, 0, 3, 0, 2⟩, ⟨0, 4, 2, 3, 0, 2⟩], [true, true]⟩ := by decide +kernel
+/-! #### (wave 4) membership in the DECLARED specs: structure, shapes, dtypes and bounds -/
+open Sp PzS PkS
+
+/-- the model's `obsSpec` / `actionSpec` / reward and discount specs ARE the specs generated from the real spec objects
+(Gen/Specs.lean) for the catalogue configurations `binpack-csv` (`BinPack(CSVGenerator(…, max_num_ems=15), obs_num_ems=8)`,
+2 items; every leaf) and `binpack-toy` (`BinPack(ToyGenerator(), obs_num_ems=10)`, 20 items; every leaf except
+`action_mask`, whose 10 × 20 entries are too many for the generated table — that leaf, and the raw (`int32`, `[0, max_dim]`)
+form of the specs, are compared at run time by the `bin_pack.spec` op for every adapter configuration): paths
+`ems.{x1,x2,y1,y2,z1,z2}`, `ems_mask`, `items.{x_len,y_len,z_len}`, `items_mask`, `items_placed`, `action_mask` in this order;
+shapes `(obs_num_ems,)` / `(max_num_items,)` / `(obs_num_ems, max_num_items)`; float32 in `[0, 1]`, bool -/
+theorem binpack_obsSpec_generated :
+    prefixed "observation_spec." (obsSpec ⟨8, true, true⟩ 2 ⟨5870, 2330, 2200⟩) = declared "binpack-csv" "observation_spec." ∧
+    [("action_spec", actionSpec ⟨8, true, true⟩ 2)] = declared "binpack-csv" "action_spec" ∧
+    [("reward_spec", rewardSpec)] = declared "binpack-csv" "reward_spec" ∧
+    [("discount_spec", discountSpec)] = declared "binpack-csv" "discount_spec" ∧
+    (prefixed "observation_spec." (obsSpec ⟨10, true, true⟩ 20 ⟨5870, 2330, 2200⟩)).dropLast =
+      declared "binpack-toy" "observation_spec." ∧
+    [("action_spec", actionSpec ⟨10, true, true⟩ 20)] = declared "binpack-toy" "action_spec" ∧
+    [("reward_spec", rewardSpec)] = declared "binpack-toy" "reward_spec" ∧
+    [("discount_spec", discountSpec)] = declared "binpack-toy" "discount_spec" := by
+  refine ⟨by decide, by decide, by decide, by decide, by decide, by decide, by decide, by decide⟩
+
+/-- the invariant behind the membership theorems — `BoundsInv dm` (container `[0,cx]×[0,cy]×[0,cz]`, every EMS slot inside
+it, no item larger than it), consistent array lengths, `n = max_num_items` items, a buffer of at least `obs_num_ems` EMS
+slots, positive container sides — is established by `reset` (any generator output `validReset`, any buffer size
+`max_num_ems ≥ obs_num_ems`) and preserved by EVERY step: any integers as action (inside the action spec or not, valid or
+not), MID or LAST, with any admissible draw of the EMS update, and with NO hypothesis for the deterministic `step₁` -/
+theorem binpack_specInv_invariant (cfg : Cfg) (rnd : Rat → Rat) (n : Nat) (dm : Dims) :
+    (∀ (maxEms : Nat) (items : List Item) (itemsMask : List Bool), validReset dm n items itemsMask → cfg.obsNum ≤ maxEms →
+      1 ≤ maxEms → SpecInv cfg n dm (reset cfg rnd dm maxEms items itemsMask).1) ∧
+    (∀ (s : State) (e i : Int) (d : EmsDraw), SpecInv cfg n dm s →
+      (stepValid s e i = true → validDraw s e i d ∧ validDrawAll s e i d) → SpecInv cfg n dm (step cfg rnd s e i d).1) ∧
+    (∀ (s : State) (e i : Int), SpecInv cfg n dm s → SpecInv cfg n dm (step₁ cfg rnd s e i).1) :=
+  ⟨fun maxEms items m h hE hE1 => BinPack.reset_specInv cfg rnd dm maxEms n items m h hE hE1,
+   fun s e i d h hd => BinPack.step_specInv cfg rnd n dm s e i d h hd,
+   fun s e i h => BinPack.step₁_specInv cfg rnd n dm s e i h⟩
+
+/-- the `reset` observation — every generator output (any `n` items none of which is larger than the container, any item
+mask, positive container sides), every buffer size `max_num_ems ≥ obs_num_ems ≥ 1`, either form of the observation
+(normalised float32 / raw int32), any rounding of the volumes — is accepted by `observation_spec.validate` -/
+theorem binpack_reset_obs_valid (cfg : Cfg) (rnd : Rat → Rat) (dm : Dims) (maxEms n : Nat) (hO : 0 < cfg.obsNum)
+    (items : List Item) (itemsMask : List Bool) (h : validReset dm n items itemsMask) (hE : cfg.obsNum ≤ maxEms) :
+    (obsSpec cfg n dm).valid (toNValue cfg.normalize (reset cfg rnd dm maxEms items itemsMask).2.obs) = true :=
+  BinPack.reset_obs_valid cfg rnd dm maxEms n hO items itemsMask h hE
+
+/-- FINDING (the constructor does not compare `obs_num_ems` with `generator.max_num_ems`): with a buffer SMALLER than
+`obs_num_ems` the observation has only `max_num_ems` EMS rows and `observation_spec.validate` REJECTS it, already at `reset` —
+for every instance.  Reproduction: `BinPack(generator=RandomGenerator(8, 20), obs_num_ems=30)`: the reset observation has
+`ems.x1.shape == (20,)`, `action_mask.shape == (20, 8)`; `env.observation_spec.validate(ts.observation)` raises
+"Expected shape (30, 8) but found (20, 8) for spec action_mask". -/
+theorem binpack_reset_obs_not_valid (cfg : Cfg) (rnd : Rat → Rat) (dm : Dims) (maxEms n : Nat) (items : List Item)
+    (itemsMask : List Bool) (hm : itemsMask.length = items.length) (hE1 : 1 ≤ maxEms) (hE : maxEms < cfg.obsNum) :
+    (obsSpec cfg n dm).valid (toNValue cfg.normalize (reset cfg rnd dm maxEms items itemsMask).2.obs) = false :=
+  BinPack.reset_obs_not_valid cfg rnd dm maxEms n items itemsMask hm hE1 hE
+
+/-- the observation of EVERY `step` — any integers as action (in the action space or not, valid or not), MID or LAST, either
+reward function — from every state with the invariant; when the step packs an item the successor EMS buffer is any draw in
+the two relations -/
+theorem binpack_step_obs_valid (cfg : Cfg) (rnd : Rat → Rat) (n : Nat) (dm : Dims) (hO : 0 < cfg.obsNum) (s : State)
+    (e i : Int) (d : EmsDraw) (h : SpecInv cfg n dm s)
+    (hd : stepValid s e i = true → validDraw s e i d ∧ validDrawAll s e i d) :
+    (obsSpec cfg n dm).valid (toNValue cfg.normalize (step cfg rnd s e i d).2.obs) = true :=
+  BinPack.step_obs_valid cfg rnd n dm hO s e i d h hd
+
+/-- the same for the deterministic step (EMS update = transliterated `_update_ems`): no hypothesis on the EMS update -/
+theorem binpack_step_obs_valid₁ (cfg : Cfg) (rnd : Rat → Rat) (n : Nat) (dm : Dims) (hO : 0 < cfg.obsNum) (s : State)
+    (e i : Int) (h : SpecInv cfg n dm s) :
+    (obsSpec cfg n dm).valid (toNValue cfg.normalize (step₁ cfg rnd s e i).2.obs) = true :=
+  BinPack.step₁_obs_valid cfg rnd n dm hO s e i h
+
+/-- WHOLE EPISODES: along the rollout (`Ep.rollout` = the deterministic L1 step iterated) of ANY actions (any integers) from
+`reset`, EVERY emitted observation is a member of the spec (no time limit: every index, the terminal observation and
+whatever follows it included) -/
+theorem binpack_rollout_obs_valid (cfg : Cfg) (rnd : Rat → Rat) (dm : Dims) (maxEms n : Nat) (hO : 0 < cfg.obsNum)
+    (items : List Item) (itemsMask : List Bool) (h : validReset dm n items itemsMask) (hE : cfg.obsNum ≤ maxEms)
+    (as : List (Int × Int)) (j : Nat) (e : State × TimeStep Obs)
+    (he : (Ep.rollout (fun s (a : Int × Int) => step₁ cfg rnd s a.1 a.2) (reset cfg rnd dm maxEms items itemsMask).1 as)[j]?
+      = some e) :
+    (obsSpec cfg n dm).valid (toNValue cfg.normalize e.2.obs) = true :=
+  BinPack.rollout_obs_valid cfg rnd dm maxEms n hO items itemsMask h hE as j e he
+
+/-- … and of the RELATIONAL step: any actions (any integers) with any EMS draws that are admissible when their turn comes
+(`DrawsOK`: a step that packs an item gets a draw in `validDraw ∧ validDrawAll`; the draws of the other steps are ignored),
+from any state with the invariant (e.g. the reset state, `binpack_specInv_invariant`): EVERY emitted observation is a member -/
+theorem binpack_rollout_obs_valid_rel (cfg : Cfg) (rnd : Rat → Rat) (n : Nat) (dm : Dims) (hO : 0 < cfg.obsNum)
+    (as : List (Int × Int × EmsDraw)) (s : State) (hs : SpecInv cfg n dm s) (hd : DrawsOK cfg rnd s as) (j : Nat)
+    (e : State × TimeStep Obs)
+    (he : (Ep.rollout (fun s (a : Int × Int × EmsDraw) => step cfg rnd s a.1 a.2.1 a.2.2) s as)[j]? = some e) :
+    (obsSpec cfg n dm).valid (toNValue cfg.normalize e.2.obs) = true :=
+  BinPack.rollout_obs_valid_rel cfg rnd n dm hO as s hs hd j e he
+
+/-- the hypothesis is satisfiable on a packing step: the draw of the running example (item 2×2×2 into the corner) -/
+example : DrawsOK ⟨2, false, true⟩ id ex [(0, 0, ⟨[⟨2, 4, 0, 3, 0, 2⟩, ⟨0, 4, 2, 3, 0, 2⟩], [true, true]⟩)] :=
+  ⟨by decide +kernel, trivial⟩
+
+/-- what membership means (so the theorems above are not hollow): `validate` accepts an observation ONLY IF it has
+`obs_num_ems` EMS rows and `n` item rows, every coordinate / side length lies in `[0, 1]` (normalised) resp. `[0, max_dim]`
+(raw), the masks have the declared lengths and the action mask is `obs_num_ems × n` -/
+theorem binpack_obs_valid_only (cfg : Cfg) (n : Nat) (dm : Dims) (o : Obs)
+    (h : (obsSpec cfg n dm).valid (toNValue cfg.normalize o) = true) :
+    o.ems.length = cfg.obsNum ∧
+    (∀ e ∈ o.ems, In (hiR cfg.normalize dm) e.x1 ∧ In (hiR cfg.normalize dm) e.x2 ∧ In (hiR cfg.normalize dm) e.y1 ∧
+      In (hiR cfg.normalize dm) e.y2 ∧ In (hiR cfg.normalize dm) e.z1 ∧ In (hiR cfg.normalize dm) e.z2) ∧
+    o.emsMask.length = cfg.obsNum ∧ o.items.length = n ∧
+    (∀ it ∈ o.items, In (hiR cfg.normalize dm) it.xl ∧ In (hiR cfg.normalize dm) it.yl ∧ In (hiR cfg.normalize dm) it.zl) ∧
+    o.itemsMask.length = n ∧ o.itemsPlaced.length = n ∧ shape2 o.actionMask = [cfg.obsNum, n] :=
+  BinPack.obs_valid_only cfg n dm o h
+
+/-- the running example (4 × 3 × 2 container, two items, two EMS slots, two shown): the invariant holds at reset and after
+the packing step; the reset observation is a member in both forms; membership FAILS with `obs_num_ems = 3 > max_num_ems = 2`
+(the finding), for an item side beyond `max_dim`, and for another item count -/
+example : SpecInv ⟨2, false, true⟩ 2 ⟨4, 3, 2⟩ ex ∧ SpecInv ⟨2, false, true⟩ 2 ⟨4, 3, 2⟩ (step₁ ⟨2, false, true⟩ id ex 0 0).1 ∧
+    (obsSpec ⟨2, false, true⟩ 2 ⟨4, 3, 2⟩).valid
+      (toNValue false (reset ⟨2, false, true⟩ id ⟨4, 3, 2⟩ 2 [⟨2, 2, 2⟩, ⟨4, 1, 1⟩] [true, true]).2.obs) = true ∧
+    (obsSpec ⟨2, true, true⟩ 2 ⟨4, 3, 2⟩).valid
+      (toNValue true (reset ⟨2, true, true⟩ id ⟨4, 3, 2⟩ 2 [⟨2, 2, 2⟩, ⟨4, 1, 1⟩] [true, true]).2.obs) = true ∧
+    (obsSpec ⟨3, false, true⟩ 2 ⟨4, 3, 2⟩).valid
+      (toNValue false (reset ⟨3, false, true⟩ id ⟨4, 3, 2⟩ 2 [⟨2, 2, 2⟩, ⟨4, 1, 1⟩] [true, true]).2.obs) = false ∧
+    (obsSpec ⟨2, false, true⟩ 2 ⟨4, 3, 2⟩).valid
+      (toNValue false (reset ⟨2, false, true⟩ id ⟨4, 3, 2⟩ 2 [⟨2, 2, 2⟩, ⟨5, 1, 1⟩] [true, true]).2.obs) = false ∧
+    (obsSpec ⟨2, false, true⟩ 3 ⟨4, 3, 2⟩).valid
+      (toNValue false (reset ⟨2, false, true⟩ id ⟨4, 3, 2⟩ 2 [⟨2, 2, 2⟩, ⟨4, 1, 1⟩] [true, true]).2.obs) = false := by
+  decide +kernel
+
+/-- reward and discount of every `step` (ALL states, ALL action values, all draws, both reward functions) and of `reset` are
+accepted by `reward_spec` (Array((), float)) and `discount_spec` (BoundedArray((), float, 0, 1)) -/
+theorem binpack_reward_discount_valid (cfg : Cfg) (rnd : Rat → Rat) (s : State) (e i : Int) (d : EmsDraw) (dm : Dims)
+    (maxEms : Nat) (items : List Item) (m : List Bool) :
+    rewardSpec.valid (scalarArr (step cfg rnd s e i d).2.reward) = true ∧
+    discountSpec.valid (scalarArr (step cfg rnd s e i d).2.discount) = true ∧
+    rewardSpec.valid (scalarArr (reset cfg rnd dm maxEms items m).2.reward) = true ∧
+    discountSpec.valid (scalarArr (reset cfg rnd dm maxEms items m).2.discount) = true :=
+  ⟨(BinPack.step_reward_discount_valid cfg rnd s e i d).1, (BinPack.step_reward_discount_valid cfg rnd s e i d).2,
+   (BinPack.reset_reward_discount_valid cfg rnd dm maxEms items m).1,
+   (BinPack.reset_reward_discount_valid cfg rnd dm maxEms items m).2⟩
+
+/-- `action_spec.generate_value()` = (0, 0): the action spec is well-formed, the generated value is a member, and the step
+answers it from every state with the invariant with a protocol-conform timestep whose observation is a member of the
+observation spec; membership in `action_spec` is "EMS slot < obs_num_ems, item < max_num_items" -/
+theorem binpack_accepts_generate_value (cfg : Cfg) (rnd : Rat → Rat) (n : Nat) (dm : Dims) (hO : 0 < cfg.obsNum) (hn : 0 < n)
+    (hb1 : cfg.obsNum ≤ 2147483648) (hb2 : n ≤ 2147483648) (s : State) (h : SpecInv cfg n dm s) :
+    (actionSpec cfg n).WF = true ∧ (actionSpec cfg n).valid (actionSpec cfg n).generate = true ∧
+    (actionSpec cfg n).generate = actionArr 0 0 ∧ StepOK none false (step₁ cfg rnd s 0 0).2 = true ∧
+    (obsSpec cfg n dm).valid (toNValue cfg.normalize (step₁ cfg rnd s 0 0).2.obs) = true :=
+  BinPack.accepts_generate_value cfg rnd n dm hO hn hb1 hb2 s h
+
+theorem binpack_action_spec_iff (cfg : Cfg) (n e i : Nat) :
+    (actionSpec cfg n).valid (actionArr (e : Int) (i : Int)) = true ↔ e < cfg.obsNum ∧ i < n :=
+  BinPack.actionSpec_valid_iff cfg n e i
 end Props.C01
 
 namespace Props.C04
